@@ -162,7 +162,7 @@ def candidates(row, local_rules, global_rules, neg):
 
 class Verdict:
     """what the ACL says about one row at one level"""
-    __slots__ = ("cands", "covered", "suppressed", "ambiguous", "child_local", "child_global", "child_sub", "governing")
+    __slots__ = ("cands", "covered", "suppressed", "ambiguous", "child_local", "child_global", "child_sub", "governing", "clash")
 
 
 def _split(rules):
@@ -175,6 +175,7 @@ def judge(row, has_children, local_rules, global_rules, sub, neg):
     cands = candidates(row, local_rules, global_rules, neg)
     v.cands = cands
     v.ambiguous = False
+    v.clash = False
     v.suppressed = False
     v.governing = []
     v.child_local, v.child_global, v.child_sub = [], list(global_rules), (set(sub) if sub else None)
@@ -206,6 +207,13 @@ def judge(row, has_children, local_rules, global_rules, sub, neg):
             lo, gl = _split(c.rule.children)
             v.child_local += [r for r in lo if r not in v.child_local]
             v.child_global += [r for r in gl if r not in v.child_global]
+        # the same pattern among the children of two different matching rules, with different parameters: how the two
+        # are united (prio, global) is not described anywhere; the reference keeps them as two rules and says so
+        seen = {}
+        for r in v.child_local + v.child_global:
+            k = seen.setdefault(r.text, (r.prio, r.is_global))
+            if k != (r.prio, r.is_global):
+                v.clash = True
     return v
 
 
@@ -213,17 +221,31 @@ class RefResult:
     def __init__(self):
         self.tree = odict()
         self.ambiguous = False
+        self.clash = False        # children of two matching rules contain one pattern with different %prio / %global
         self.uncovered = []       # paths (tuples) of rows at a covered parent that no rule covers, visiting order
         self.suppressed = []      # reverse-form rows of cant_delete rules
         self.only_subtree = set()  # kept paths lying below a row matched by a %global rule whose pattern is not `~`
                                    # (and below no row matched by a `~ %global`)
+        self.sub_scope = set()    # all visited paths (kept or not) in that position
         self.governing = {}       # path -> list[Cand]
         self.cands = {}           # path -> list[Cand]
 
 
+_parsed = {}
+
+
+def parse_acl_cached(text):
+    r = _parsed.get(text)
+    if r is None:
+        if len(_parsed) > 20000:
+            _parsed.clear()
+        r = _parsed[text] = parse_acl(text)
+    return r
+
+
 def ref_eval(tree, acl, vendor):
-    """acl: text or list[Rule]"""
-    rules = parse_acl(acl) if isinstance(acl, str) else acl
+    """acl: text or list[Rule] (rules are never modified by the evaluation)"""
+    rules = parse_acl_cached(acl) if isinstance(acl, str) else acl
     neg = NEGATION[vendor]
     res = RefResult()
     lo, gl = _split(rules)
@@ -236,6 +258,10 @@ def ref_eval(tree, acl, vendor):
             res.governing[p] = v.governing
             if v.ambiguous:
                 res.ambiguous = True
+            if v.clash and children:
+                res.clash = True
+            if sub and "~" not in sub:
+                res.sub_scope.add(p)
             if not v.covered:
                 res.uncovered.append(p)
                 continue
